@@ -33,6 +33,7 @@ func runC08(c *Ctx) {
 	p := c.P
 	s := p.Selectors()
 	s.checkFailedShutdownCommandKills(c)
+	s.checkDaemonRelease(c, "daemon-released-after-configured-stop")
 	ls := p.Locksets(s.Runner)
 	spawnSite := CallOfFn("Spawn", s.Spawns...)
 	spawnDeep := p.Deep(spawnSite)
@@ -96,6 +97,30 @@ func runC08(c *Ctx) {
 				}
 			}
 			c.Check(!bad, rRestart, p.FuncKey(f), p.InstrPos(call), "completion of the old instance is awaited before the spawn", "the new instance can be spawned while the old command is still alive (only a fixed sleep separates them)")
+			// the stop is made for every registered instance, whatever state it is in: its only guard is the
+			// registry lookup having returned an instance
+			okG := true
+			for _, gd := range GuardsOf(call) {
+				cmp, isCmp := gd.Cmp()
+				if isCmp && (IsNilConst(cmp.X) || IsNilConst(cmp.Y)) {
+					other := cmp.X
+					if IsNilConst(cmp.X) {
+						other = cmp.Y
+					}
+					if isPtrTo(other.Type(), s.Process) {
+						continue
+					}
+				}
+				if v, _ := gd.BoolVal(); v != nil {
+					if ex, isEx := v.(*ssa.Extract); isEx && ex.Index == 1 {
+						if lk, isLk := ex.Tuple.(*ssa.Lookup); isLk && PathOf(lk.X).LastField() == s.FRunning {
+							continue
+						}
+					}
+				}
+				okG = false
+			}
+			c.Check(okG, rRestart, p.FuncKey(f)+":stop-guard", p.InstrPos(call), "every registered instance is stopped and awaited first", "the restart stops (and awaits) the old instance only under a condition on its state: an instance that is registered but between restarts, pending or terminating is left alone, the new instance is spawned next to it (two live instances, one unreachable) or inherits its Terminating state and never launches")
 		})
 		if n == 0 {
 			c.Bad(rRestart, p.FuncKey(f)+":no-stop", FirstPos(p, f), "RestartProcess does not stop the running instance")
@@ -190,7 +215,7 @@ func runC08(c *Ctx) {
 					bad = in
 				}
 				if ret, ok := in.(*ssa.Return); ok {
-					if len(ret.Results) == 0 || IsNilConst(ret.Results[len(ret.Results)-1]) {
+					if len(ret.Results) == 0 || IsNilConst(RetVals(ret)[len(ret.Results)-1]) {
 						errRet = false
 					}
 				}
@@ -283,7 +308,7 @@ func (s *Sel) checkStartRefusedWhenRegistered(c *Ctx, ruleID string) {
 				if cc, isC := in.(*ssa.Call); isC && spawnDeep.MayAt(cc) {
 					bad = true
 				}
-				if ret, isRet := in.(*ssa.Return); isRet && IsNilConst(ret.Results[len(ret.Results)-1]) {
+				if ret, isRet := in.(*ssa.Return); isRet && IsNilConst(RetVals(ret)[len(ret.Results)-1]) {
 					bad = true
 				}
 			}
